@@ -5,4 +5,4 @@ From RC Require Import lib.PyStr model.DiscoverC18.
 Extraction Language OCaml.
 Extraction "../build/ocaml/C18/model.ml" N.succ Z.succ Pos.succ Nat.add
   walk_paths discover discover_sched analyse_of basename is_test_dir render
-  comp_excluded string_excluded alignedb root_guardb.
+  comp_excluded string_excluded root_guardb rstrip_slash excluded_by.
